@@ -796,7 +796,7 @@ def m_unwrap_or_default(it, argv, text):
     t = text.split('::unwrap_or_default')[0]
     m = re.search(r'<(.*)>', t)
     inner = base_type(split_top(m.group(1))[0]) if m else ''
-    if inner in ('String', 'PathBuf'):
+    if inner in ('String', 'PathBuf', 'str', 'OsString', 'OsStr', 'Path') or (m and split_top(m.group(1))[0].strip() in ('&str', "&'static str")):
         return StrV(())
     if inner == 'Vec' or ('Vec<' in text.split('::unwrap_or_default')[0] and v.ename == 'Result'):
         return VecV(())
